@@ -14,8 +14,8 @@ KANI = [{
         H("tree_size_1", ["C01"], "bounded", "trees of 1 entry (name 1-2 bytes, any u16 mode, any first id byte): size()==bytes written, TreeRefIter decodes it back", tier="off", functions=["<gix_object::TreeRef as WriteTo>::write_to", "<gix_object::TreeRef as WriteTo>::size", "<gix_object::Tree as WriteTo>::write_to", "<gix_object::Tree as WriteTo>::size", "gix_object::tree::ref_iter::decode::fast_entry"]),
         H("tree_size_2", ["C01"], "bounded", "trees of 2 sorted entries", tier="off", timeout=1800, functions=["<gix_object::TreeRef as WriteTo>::write_to", "<gix_object::TreeRef as WriteTo>::size", "<gix_object::Tree as WriteTo>::write_to", "<gix_object::Tree as WriteTo>::size", "gix_object::tree::ref_iter::decode::fast_entry"]),
         H("loose_header_u16", ["C01"], "bounded", "4 kinds x every size < 2^16", tier="off", functions=["gix_object::encode::loose_header", "gix_object::decode::loose_header"]),
-        H("tree_iter_any_12", ["C06"], "bounded", "TreeRefIter over every 12-byte input", functions=["gix_object::TreeRefIter::next", "gix_object::tree::ref_iter::decode::fast_entry"]),
-        H("tree_iter_any_28", ["C06"], "bounded", "TreeRefIter over every 28-byte input (room for one whole entry)", timeout=1800, functions=["gix_object::TreeRefIter::next", "gix_object::tree::ref_iter::decode::fast_entry"]),
+        H("tree_iter_any_12", ["C06"], "bounded", "TreeRefIter over every 12-byte input", tier="off", functions=["gix_object::TreeRefIter::next", "gix_object::tree::ref_iter::decode::fast_entry"]),
+        H("tree_iter_any_28", ["C06"], "bounded", "TreeRefIter over every 28-byte input (room for one whole entry)", tier="off", timeout=1800, functions=["gix_object::TreeRefIter::next", "gix_object::tree::ref_iter::decode::fast_entry"]),
         H("mode_any_8", ["C06"], "bounded", "EntryMode::try_from over every 8-byte input", functions=["<gix_object::tree::EntryMode as TryFrom<&[u8]>>::try_from"]),
         H("loose_header_any_8", ["C06"], "bounded", "decode::loose_header over every 8-byte input", functions=["gix_object::decode::loose_header"]),
         H("loose_header_any_12", ["C06"], "bounded", "decode::loose_header over every 12-byte input", tier="thorough", timeout=1800, functions=["gix_object::decode::loose_header"]),
